@@ -342,6 +342,13 @@ def add_pyridine(rng, lines, dist=2.9):
     return out
 
 
+def nterm_asp_hbond_fragment():
+    """residues 216-219 of 1FTJ chain A: the N-terminal ASP 216 (penalised, finding D20) is hydrogen-bonded to LYS 218 without
+    a Coulomb determinant between them"""
+    t = dict(test_files(["1FTJ-Chain-A"]))["1FTJ-Chain-A"]
+    return [l for l in lines_of(t) if l.startswith("ATOM") and l[26] == " " and 216 <= int(l[22:26]) <= 219] + ["TER   \n"]
+
+
 def ss_fragment():
     """two short peptides of 3SGB joined by the Cys 42 - Cys 58 disulfide bridge (chain E residues 41-43 and 56-59)"""
     t = dict(test_files(["3SGB"]))["3SGB"]
